@@ -55,17 +55,18 @@ let float_of_real (r : real) : float =
 
 let hex_dbl (f : float) = Printf.sprintf "%016Lx" (Int64.bits_of_float f)
 
-exception Big            (* a coordinate beyond 2^50 grid steps: the doubles of the implementation are not exact *)
+exception Big            (* a coordinate beyond 2^40 grid steps: the doubles of the implementation are not exact enough
+                            (circle recognition needs about 1e-3 grid steps) *)
 
-(* z -> int, raising Big beyond 2^50 *)
-let limit = 1 lsl 50
+(* z -> int, raising Big beyond 2^40 *)
+let limit = 1 lsl 40
 let rec big_pos (p : positive) (k : int) : int =   (* number of bits *)
   match p with XH -> k + 1 | XO q | XI q -> big_pos q (k + 1)
 let iz (v : z) : int =
-  (match v with Z0 -> () | Zpos p | Zneg p -> if big_pos p 0 > 50 then raise Big);
+  (match v with Z0 -> () | Zpos p | Zneg p -> if big_pos p 0 > 40 then raise Big);
   int_of_z v
 let in_ (v : n) : int =
-  (match v with N0 -> () | Npos p -> if big_pos p 0 > 50 then raise Big);
+  (match v with N0 -> () | Npos p -> if big_pos p 0 > 40 then raise Big);
   int_of_n v
 
 let hex_i (i : int) = if i < 0 then "-" ^ Printf.sprintf "%x" (- i) else Printf.sprintf "%x" i
@@ -142,10 +143,12 @@ let canon_line (l : (int * int) list) : (int * int) list =
 
 (* offsets of a gdstk Repetition (as rep_offsets_of in the harness); beyond 4096 copies the parameters are printed *)
 let rep_text (r : rrep) : string =
+  let small v = match v with N0 -> Some 0 | Npos p -> if big_pos p 0 > 13 then None else Some (int_of_n v) in
   let lattice cols rows f =
-    let c = in_ cols and w = in_ rows in
-    if c > 4096 || w > 4096 || c * w > 4096 then None
-    else Some (List.concat (List.init c (fun i -> List.init w (fun j -> f i j)))) in
+    match small cols, small rows with
+    | Some c, Some w when c <= 4096 && w <= 4096 && c * w <= 4096 ->
+        Some (List.concat (List.init c (fun i -> List.init w (fun j -> f i j))))
+    | _, _ -> None in
   let show offs =
     if List.length offs <= 1 then "-"
     else
@@ -157,7 +160,7 @@ let rep_text (r : rrep) : string =
   | RR_rect (cols, rows, sx, sy) ->
       (match lattice cols rows (fun i j -> (chk (i * in_ sx), chk (j * in_ sy))) with
        | Some o -> show o
-       | None -> "rect " ^ hex_of_n cols ^ " " ^ hex_of_n rows ^ " " ^ hex_of_n sx ^ " " ^ hex_of_n sy)
+       | None -> "rect " ^ hex_of_n cols ^ " " ^ hex_of_n rows ^ " " ^ hex_i (in_ sx) ^ " " ^ hex_i (in_ sy))
   | RR_regular (cols, rows, (v1x, v1y), (v2x, v2y)) ->
       (match lattice cols rows (fun i j -> (chk (i * iz v1x + j * iz v2x), chk (i * iz v1y + j * iz v2y))) with
        | Some o ->
@@ -165,8 +168,8 @@ let rep_text (r : rrep) : string =
            (* the two vectors as well: v2 of a one-row lattice does not show in the offsets *)
            if t = "-" then t
            else t ^ " R " ^ hex_i (iz v1x) ^ " " ^ hex_i (iz v1y) ^ " " ^ hex_i (iz v2x) ^ " " ^ hex_i (iz v2y)
-       | None -> "regular " ^ hex_of_n cols ^ " " ^ hex_of_n rows ^ " " ^ hex_of_z v1x ^ " " ^ hex_of_z v1y ^ " " ^
-                 hex_of_z v2x ^ " " ^ hex_of_z v2y)
+       | None -> "regular " ^ hex_of_n cols ^ " " ^ hex_of_n rows ^ " " ^ hex_i (iz v1x) ^ " " ^ hex_i (iz v1y) ^ " " ^
+                 hex_i (iz v2x) ^ " " ^ hex_i (iz v2y))
   | RR_explicit offs -> show ((0, 0) :: List.map ipt offs)
   | RR_ex xs -> show ((0, 0) :: List.map (fun x -> (in_ x, 0)) xs)
   | RR_ey ys -> show ((0, 0) :: List.map (fun y -> (0, in_ y)) ys)
